@@ -381,6 +381,23 @@ def shapes_cases(o):
         o.end()
 
 
+def sweep_cases(o, fam, tier, seed0=1):
+    """generic differential sweeps of the harness (harness/src/sweep.rs) over element shapes the
+    instrumented registers do not have — zero-sized pairs, keys without drop glue whose equal values
+    are distinguishable, over-aligned elements, padding, slices sharing their start address,
+    reference-counted elements — for the operation families `fam` of the property."""
+    nseeds = 4 if tier == "quick" else 40
+    for cap in (0, 1, 2, 3, 4, 6, 300):
+        for sd in range(seed0, seed0 + (nseeds if cap < 300 else max(1, nseeds // 4))):
+            o.case(m0=cap, m1=cap, tag="w")
+            o.op(f"m0 sweep {fam} {sd}", test=True)
+            o.end()
+
+
+SWEEP_FAMILIES = {"C01": "d", "C02": "dcq", "C03": "des", "C05": "desc", "C07": "s", "C08": "a", "C09": "i", "C10": "c",
+                  "C11": "e", "C12": "des", "C13": "g", "C14": "q", "C15": "q", "C16": "bs", "C18": "u"}
+
+
 def gen_C01(o, rng, tier):
     shapes_cases(o)
     n = tier_n(tier)
@@ -1379,6 +1396,8 @@ def main():
         gen_C04_phase2(o, sys.argv[i + 1], sys.argv[i + 2])
     else:
         GENS[prop](o, rng, tier)
+        if prop in SWEEP_FAMILIES:
+            sweep_cases(o, SWEEP_FAMILIES[prop], tier, seed)
     with open(out, "w") as f:
         f.write("\n".join(o.lines) + "\n")
     import json
